@@ -478,12 +478,21 @@ def coq_eval_groups(name, groups, per_shard, timeout=1500):
     return res, err
 
 
-def violation_key(root, pr, o):
+def violation_key(root, vis, pr, o):
+    """specific key for the known way of going wrong: an unqualified type reference, and at some package
+    level of the file (not the outermost) the name denotes something that is not a type"""
     nm = pr["spelling"]
-    if pr["site"] == "type" and "." not in nm and o["r"] in ("desc", "sentinel") and o.get("k") not in ("message", "enum"):
-        parent = o["n"].rsplit(".", 1)[0] if "." in o["n"] else ""
-        if o["r"] == "sentinel" or parent in pkg_prefixes(root["pkg"]) or parent == "":
-            return "nontype-at-package-scope-hides-outer-type"
+    if pr["site"] == "type" and "." not in nm:
+        syms = {}
+        pkgs = set()
+        for f, ss in vis:
+            pkgs.update(pkg_prefixes(f["pkg"]))
+            for n, k in ss:
+                syms.setdefault(n, k)
+        for p in pkg_prefixes(root["pkg"]):
+            k = syms.get(p + "." + nm, "package" if p + "." + nm in pkgs else None)
+            if k is not None and k not in ("message", "enum"):
+                return "nontype-at-package-scope-hides-outer-type"
     return "resolution-differs-from-protoc"
 
 
@@ -523,9 +532,9 @@ def run(ctx):
     cases = []
     for files, probes in corpus():
         cases.append((files, probes, "corpus"))
-    for sid in range(ctx.budget(int(os.environ.get("C15N","110")), 3000)):
+    for sid in range(ctx.budget(int(os.environ.get("C15N", "60")), 3000)):
         files = gen_schema(rng, sid)
-        cases.append((files, gen_probes(rng, files, files[0], ctx.budget(160, 400)), "random"))
+        cases.append((files, gen_probes(rng, files, files[0], ctx.budget(140, 400)), "random"))
     ins, infos = [], []
     for files, probes, origin in cases:
         root = files[0]
@@ -594,7 +603,7 @@ def run(ctx):
             if k in ss:
                 exp = spec_lookup(vis, fq, pr["spelling"], pr["site"] == "type")
                 nviol += 1
-                ctx.violation(violation_key(files[0], pr, ob),
+                ctx.violation(violation_key(files[0], vis, pr, ob),
                               "the reference does not resolve as protoc's LookupSymbolNoPlaceholder does (Spec.lookup in coqc)",
                               {"files": i["files"], "root": i["root"], "reference": pr["spelling"], "site": pr["site"],
                                "inside": fq, "observed": ob, "protoc_spec_expects": exp, "model_agrees_with_impl": k not in mm})
